@@ -778,13 +778,13 @@ int SimulateMsp430::two_operand_exe(uint16_t opcode)
       if (bw == BW_BYTE)
       {
         dst = dst & 0xff;
-        src = ((~src) & 0xff) + 1;
+        src = (~src) & 0xff;
       }
         else
       {
-        src = ((~((uint16_t)src)) & 0xffff) + 1;
+        src = (~src) & 0xffff;
       }
-      result = dst + src;
+      result = dst + src + 1;
       update_v(dst, src, result, bw);
       dst = result & 0xffff;
       put_data(ea, dst_reg, Ad, bw, dst);
@@ -798,13 +798,13 @@ int SimulateMsp430::two_operand_exe(uint16_t opcode)
       if (bw == BW_BYTE)
       {
         dst = dst & 0xff;
-        src = ((~src) & 0xff) + 1;
+        src = (~src) & 0xff;
       }
         else
       {
-        src = ((~((uint16_t)src)) & 0xffff) + 1;
+        src = (~src) & 0xffff;
       }
-      result = dst + src;
+      result = dst + src + 1;
       update_v(dst, src, result, bw);
       dst = result & 0xffff;
       update_nz(dst, bw);
